@@ -154,6 +154,7 @@ type histRunner struct {
 	inGrp  []bool
 
 	lastResolved Op
+	wroteNow     bool // the current op stored a new record for its key (colliding keys: refreshes stale bookkeeping)
 	fresh        bool // C17: new records carry a timestamp one hour in the past instead of 1970
 	clientWritesInGC int
 	preGC        []*mkey
@@ -253,6 +254,17 @@ func (r *histRunner) checkGet(k int, where string) error {
 	m := r.model[k]
 	bkt, served := r.bucketOf(key)
 	p, pos, err := r.store.Get(newKI(key), false)
+	if r.staleOK[k] == "C13-tombstone-sibling" && m.State == stDeleted && err != nil {
+		// the tombstone itself was dropped by a later GC pass while the collision table still names its position
+		r.excluded["C13-tombstone-sibling"]++
+		return nil
+	}
+	if r.staleOK[k] == "C13-tombstone-sibling" && m.State == stLive && (err != nil || p == nil || p.Ver < 0) {
+		// the key lost its tree slot to a sibling's tombstone (and a later GC may have discarded its record)
+		r.excluded["C13-tombstone-sibling"]++
+		freePayload(p)
+		return nil
+	}
 	if err != nil {
 		return fmt.Errorf("%s: Get(%q) returned error %v; model: %s", where, key, err, m.describe())
 	}
@@ -267,6 +279,15 @@ func (r *histRunner) checkGet(k int, where string) error {
 		// the record of a live colliding key was discarded by a GC pass without merge (same root cause)
 		r.excluded["C13-gc-nomerge"]++
 		return nil
+	}
+	if r.staleOK[k] != "" && p != nil && p.Ver < 0 && m.State == stLive {
+		// an older own tombstone surfaces (same root causes): only if this key was deleted before
+		for _, pv := range r.prevVals[k] {
+			if pv.val == nil {
+				r.excluded[r.staleOK[k]]++
+				return nil
+			}
+		}
 	}
 	if r.staleOK[k] != "" && p != nil && p.Ver > 0 {
 		// C13-merge-stale: exactly an older acknowledged value of this very key is tolerated
@@ -439,6 +460,7 @@ func (r *histRunner) doSet(op *Op) error {
 			defer freePayload(p)
 			if p != nil && p.Ver > 0 && bytes.Equal(p.Body, val) && p.Flag == op.Flag {
 				*m = mkey{State: stLive, Val: val, Flag: op.Flag, Spec: op.V, Writes: m.Writes + 1}
+				r.wroteNow = true
 			}
 			r.label("vhash_noop_collide")
 			return nil
@@ -448,6 +470,7 @@ func (r *histRunner) doSet(op *Op) error {
 		}
 		*m = mkey{State: stLive, Val: val, Flag: op.Flag, Spec: op.V, Writes: m.Writes + 1}
 		r.collideWrites++
+		r.wroteNow = true
 		return nil
 	}
 	old := m.oldVers()
@@ -514,6 +537,27 @@ func (r *histRunner) doSet(op *Op) error {
 		m.DataVer = nv[0]
 	}
 	return nil
+}
+
+// siblingDeleted reports whether a key colliding with key k is currently deleted (its tombstone may own the shared slot).
+func (r *histRunner) siblingDeleted(k int) bool {
+	for _, g := range r.h.Cfg.Groups {
+		in := false
+		for _, x := range g {
+			if x == k {
+				in = true
+			}
+		}
+		if !in {
+			continue
+		}
+		for _, x := range g {
+			if x != k && r.model[x].State == stDeleted {
+				return true
+			}
+		}
+	}
+	return false
 }
 
 // siblingSameVhash reports whether a live key colliding with key k holds a value with the same 16-bit value hash.
@@ -587,11 +631,24 @@ func (r *histRunner) doDelete(op *Op) error {
 		if err == nil {
 			r.label("delete")
 			r.collideWrites++
+			r.wroteNow = true
 			*m = mkey{State: stDeleted, Writes: m.Writes + 1}
 		} else if err.Error() != "NOT_FOUND" {
 			return fmt.Errorf("delete of colliding key %q returned %v", key, err)
 		} else if m.State == stLive {
 			r.label("delete_collide_notfound")
+			if verifkit.Known("C13-vhash-sibling") && r.siblingDeleted(op.K) {
+				// same root cause as the dropped same-vhash set: checkAndSet judges the request by the meta of the shared
+				// tree slot without comparing keys; the slot shows a sibling's tombstone
+				r.excluded["C13-vhash-sibling"]++
+				return nil
+			}
+			if r.staleOK[op.K] == "" {
+				// a live key whose delete is answered NOT_FOUND: the shared slot (or a stale collision table entry)
+				// shows a tombstone; only tolerated where a listed finding explains the stale view
+				return fmt.Errorf("delete of live colliding key %q returned NOT_FOUND", key)
+			}
+			r.excluded[r.staleOK[op.K]]++
 		}
 		return nil
 	}
@@ -630,6 +687,7 @@ func (r *histRunner) doIncr(op *Op) error {
 		p, _, _ := r.store.Get(newKI(key), false)
 		if p != nil && p.Ver > 0 {
 			*m = mkey{State: stLive, Val: append([]byte(nil), p.Body...), Flag: p.Flag, Writes: m.Writes + 1}
+			r.wroteNow = true
 		}
 		freePayload(p)
 		return nil
@@ -856,6 +914,25 @@ func (r *histRunner) doReopen(op *Op) error {
 	r.reopens++
 	r.label("reopen")
 	// model adjustments documented in C02: tombstones may be dropped by a rebuild; tree-only version changes may be lost
+	if !hashKept && verifkit.Known("C13-tombstone-sibling") {
+		// known finding: the tree item does not carry the key, so the tombstone of one colliding key, replayed from the
+		// hints when the tree is rebuilt, removes the slot shared with its live siblings
+		for _, g := range r.h.Cfg.Groups {
+			hasTomb := false
+			for _, k := range g {
+				if r.model[k].State == stDeleted {
+					hasTomb = true
+				}
+			}
+			if hasTomb {
+				for _, k := range g {
+					if r.model[k].State != stAbsent {
+						r.staleOK[k] = "C13-tombstone-sibling"
+					}
+				}
+			}
+		}
+	}
 	for _, m := range r.model {
 		switch m.State {
 		case stDeleted:
@@ -1096,6 +1173,7 @@ func (r *histRunner) run() (err error) {
 	for i := range r.h.Ops {
 		op := &r.h.Ops[i]
 		r.curOp = i
+		r.wroteNow = false
 		if traceHooks {
 			fmt.Fprintf(os.Stderr, "OP %d %s\n", i, opString(op, &r.h.Cfg))
 		}
@@ -1108,7 +1186,7 @@ func (r *histRunner) run() (err error) {
 		// after every mutating op: the key touched reads back as the model says
 		switch op.Kind {
 		case "set", "delete", "incr", "rotate":
-			if r.inGrp[op.K] {
+			if r.inGrp[op.K] && r.wroteNow {
 				delete(r.staleOK, op.K)
 				if m := r.model[op.K]; m.State == stLive {
 					r.prevVals[op.K] = append(r.prevVals[op.K], prevVal{m.Val, m.Flag})
